@@ -18,6 +18,7 @@ import (
 	"context"
 	"encoding/hex"
 	"net"
+	"sync"
 
 	"github.com/honeytrap/honeytrap/event"
 	"github.com/honeytrap/honeytrap/pushers"
@@ -48,6 +49,9 @@ type tftpService struct {
 	ch pushers.Channel
 
 	limiter *Limiter
+
+	// guards buffers: every datagram is handled by its own goroutine
+	m sync.Mutex
 
 	buffers map[string]*tftpFile
 }
@@ -148,7 +152,9 @@ func (s *tftpService) Handle(ctx context.Context, conn net.Conn) error {
 		}
 		conn.Write(message)
 		addr := conn.RemoteAddr().String()
+		s.m.Lock()
 		s.buffers[addr] = &tftpFile{filename: filename, mode: mode}
+		s.m.Unlock()
 	case DATA:
 		blkNum := make([]byte, 2)
 		if _, err := b.Read(blkNum); err != nil {
@@ -162,6 +168,8 @@ func (s *tftpService) Handle(ctx context.Context, conn net.Conn) error {
 			return err
 		}
 		addr := conn.RemoteAddr().String()
+		s.m.Lock()
+		defer s.m.Unlock()
 		if _, ok := s.buffers[addr]; !ok {
 			log.Error("DATA packet with no matching buffer!")
 			message := []byte{0x00, byte(ERROR), 0x00, 0x04, 0x00}
